@@ -29,6 +29,13 @@ LAY = {l.name: l for l in LAYOUTS}
 
 
 def work(item) -> Dict[str, Any]:
+    t0 = time.time()
+    r = _work(item)
+    r['wall_s'] = round(time.time() - t0, 2)
+    return r
+
+
+def _work(item) -> Dict[str, Any]:
     prog, lay_name, twin = item
     lay = LAY[lay_name]
     text = render(prog, lay)
@@ -55,7 +62,7 @@ def work(item) -> Dict[str, Any]:
     from gram import Var as _V, walk as _walk
     has_offset = any(isinstance(n, _V) and n.off for eq in prog for n in _walk(eq.expr))
     # the negative spelling of t matters where some access is offset from t; elsewhere it is run for every 8th program
-    spellings = ('pos', 'neg') if (has_offset or vlib.tier() == 'thorough' or hash(show(prog)) % 8 == 0) else ('pos',)
+    spellings = ('pos', 'neg') if (has_offset or vlib.tier() == 'thorough' or __import__("zlib").crc32(show(prog).encode()) % 8 == 0) else ('pos',)
     for spelling in spellings:
         r = equivalence(prog, ref, pb['Model'], pb['symbols'], spelling=spelling)
         out['paths'] += r['paths']
